@@ -62,6 +62,15 @@ func (x *Exec) oblige(st *State, kind, name, goal string, pos ast.Node) *Obligat
 	if st.dead {
 		return nil
 	}
+	if x.unit.Spec != nil {
+		for _, ao := range x.unit.Spec.AssumeObl {
+			pat, reason, _ := strings.Cut(ao, " because ")
+			if strings.HasPrefix(name, strings.TrimSpace(pat)) {
+				x.assumed["obligation "+x.unit.Name+":"+name+" is assumed, not proved: "+reason] = true
+				return nil
+			}
+		}
+	}
 	x.nameCnt[name]++
 	full := x.unit.Name + ":" + name
 	if n := x.nameCnt[name]; n > 1 {
